@@ -194,6 +194,14 @@ func (v *collator_[V]) compareMaps(first ref.Value, second ref.Value) bool {
 		var key = iterator.Key()
 		var firstValue = iterator.Value()
 		var secondValue = second.MapIndex(key)
+		if !secondValue.IsValid() {
+			// The second Go map has no key that is identical to this key, but
+			// it may have one that is equal to it (another pointer to an equal
+			// value, the same number in another integer type).  Only pairing
+			// the sorted keys can tell, which is what the ranking does.
+			v.depth_--
+			return v.rankMaps(first, second) == EqualRank
+		}
 		if !v.compareValues(firstValue, secondValue) {
 			// The values don't match.
 			v.depth_--
